@@ -153,6 +153,10 @@ def nat_oracle(cs, ps, v):
     names += ["chars", "split('')", "concat"]
     b = s.encode("utf-8")
     ints = [(-1 if i < 0 or i >= len(b) else b[i]) for i in (-1, 0, len(b) - 1, len(b))]
+    # find answers in bytes; by characters: the UTF-8 size of everything before the first occurrence
+    for nd in (s[n // 2: n // 2 + 1], s[max(0, n - 2):], "", s + "z"):
+        k = s.find(nd)
+        ints.append(-1 if k < 0 else len(s[:k].encode("utf-8")))
     pos, got = 0, []
     try:
         for _ in want:
@@ -165,7 +169,7 @@ def nat_oracle(cs, ps, v):
         if w.encode("utf-8") != g:
             return ("native:" + nm.split("(")[0], f"{nm} on {s!r} (pad {pad!r}) gives {g!r}, by characters it is {w.encode('utf-8')!r}")
     if tail != ints:
-        return ("native:byte_at", f"byte_at at -1, 0, len-1, len of {s!r} gives {tail}, expected {ints}")
+        return ("native:byte_at-or-find", f"byte_at at -1, 0, len-1, len and find of 4 needles on {s!r} give {tail}, expected {ints}")
     return None
 
 
